@@ -125,6 +125,17 @@ Abstraction == (rs.tag = "ok" /\ readerAlive) => (rs.q = items /\ len = SumQ(ite
 (* a parked reader always has its waker stored: the structural reason for ReaderWake *)
 ParkedReaderRegistered == (rs.tag = "ok" /\ rs.waitR /\ readerAlive) => task
 ParkedFeederRegistered == (rs.tag = "ok" /\ rs.waitF /\ readerAlive) => ioTask
+(* the inductive invariant of the abstraction PayloadInd (shown inductive by Apalache for histories of any length), read on this
+   model's state: every reachable state here maps into it *)
+IndMapped == rs.tag = "ok" =>
+  /\ len >= Len(items) /\ (items = <<>> => len = 0)
+  /\ (readerAlive /\ rs.waitR) => task
+  /\ (readerAlive /\ rs.waitF) => ioTask
+  /\ readerAlive => (eof = rs.eof)
+  /\ (readerAlive /\ err # NoErr) => rs.errs # {}
+  /\ (readerAlive /\ rs.errs # {} /\ ~rs.ended) => err # NoErr
+  /\ (readerAlive /\ rs.waitR) => (~eof /\ err = NoErr)
+  /\ (eof \/ err # NoErr) => senderClosed
 Emit == steps > 0 => PrintT(<<"CASE", ToJson([eof |-> StartEof, ops |-> hist])>>)
 View == <<len, eof, err, senderClosed, needRead, items, task, ioTask, senderAlive, readerAlive, rs, nid, steps, lastT>>
 =================================================================================
